@@ -1,6 +1,6 @@
 (* C14Check.v — judges the parsed-back output of the REAL built-in reporters. *)
 From CV Require Import Model.Base Model.Events Model.Contract Model.Normalize Model.Stats Model.StatsSpec
-  Model.Reporters Model.ReportersSpec Model.ReportersSpec2 Model.ReportersSpec3 Check.Verdict.
+  Model.Reporters Model.ReportersSpec Model.ReportersSpec2 Model.ReportersSpec3 Model.ReportersSpec4 Check.Verdict.
 From CV Require Proofs.ReportersP2 Proofs.ReportersP3 Proofs.ReportersP4.
 
 Record rcase14 := mk_rcase14 {
@@ -36,7 +36,11 @@ Definition c14_ok (c : rcase14) : bool :=
      failed, else skipped if a step was skipped, else success), whenever the attempts of the stream are canonical *)
   | 2 => c14_junit_ok es (r_report c) && c14_junit_attr_ok es (r_report c)
          && (negb (attempts_canonical es) || c14_junit_ok3 es (r_report c))
+  (* terminal, further: every `Feature:` / `Rule:` line is a fact of its own (none invented, none repeated, a rule under its
+     own feature: multiset against the raw stream), and the whole listing — headers, scenario headers, result lines, parser
+     errors — stands in the order of the stream the writer receives, i.e. of what Normalize forwards (ReportersSpec4) *)
   | _ => c14_basic_ok es (r_report c) && c14_basic_attr_ok es (r_report c)
+         && hdr_multiset_ok es (r_report c) && doc_order_ok (normalized_stream c) (r_report c)
   end.
 
 Definition pathless_with_events (c : rcase14) (only_scen : bool) : bool :=
